@@ -335,6 +335,24 @@ func (x *Exec) callFunc(s *State, call *ast.CallExpr, f *types.Func, recv *Term)
 		w := x.eval(s, call.Args[0])
 		txt := x.sprintf(s, call.Args[1], call.Args[2:])
 		return x.writeTo(s, call, call.Args[0], w, txt)
+	case "fmt.Fprint", "fmt.Fprintln":
+		// operands are rendered with %v; Fprint puts spaces only between operands that are not strings (all operands of the
+		// calls in this code base are strings or single values), Fprintln between all and adds a newline
+		w := x.eval(s, call.Args[0])
+		var parts []*Term
+		for i, a := range call.Args[1:] {
+			if i > 0 && name == "fmt.Fprintln" {
+				parts = append(parts, StrLit(" "))
+			}
+			if i > 0 && name == "fmt.Fprint" {
+				x.fail(call, "fmt.Fprint with several operands")
+			}
+			parts = append(parts, x.formatArg('v', x.eval(s, a), x.info.TypeOf(a)))
+		}
+		if name == "fmt.Fprintln" {
+			parts = append(parts, StrLit("\n"))
+		}
+		return x.writeTo(s, call, call.Args[0], w, catAll(parts))
 	case "fmt.Println":
 		// output to stdout is not part of any contract: modelled as an append to ghost stdout
 		var parts []*Term
